@@ -15,7 +15,7 @@ static struct CEnt *CIt__op_star(struct CIt *i) {
    * a pointer to a member inside an array element makes CBMC fall back to byte extraction from the whole array.) */
 #define C_ m->kids[p].m_children
   __CPROVER_assume(m->keys[p] == m->kids[p].m_name.id);            /* key = name of the child (lookupNode inserts {name, Node(name)}) */
-  __CPROVER_assume(C_.g_lvl == m->g_lvl + 1);                      /* a child is one level deeper */
+  __CPROVER_assume((long)C_.g_lvl == (long)m->g_lvl + 1);                      /* a child is one level deeper */
   __CPROVER_assume(!C_.g_whit || C_.g_win);                        /* WHIT(c) implies W in subtree(c) */
   __CPROVER_assume(!C_.g_isw || C_.g_win);
   __CPROVER_assume(!C_.g_win || (m->g_win && !m->g_isw && p == m->g_wchild));   /* only the child on the path holds W */
